@@ -13,10 +13,13 @@ import ShellOp.Model.HookOutText
   `invaliddoc` / `wrongtype`: the schema's and the cluster's business; `deleted`: the hook removed the
   file; YAML patches: the class alone). The model runs `Run` + `handleRunHook` on its temp directory
   and answers with status and effects.
+  `pm=<ops>`: the operations of the patch file (`<p|c><ignoreHookError>:x<subresource hex>`, comma separated,
+  `-` = none); the answer ends with `ops=<mask>`: which of them `handleRunHook` executes.
+* `filter pm=<ops>` — `GetPatchStatusOperationsOnHookError` on these operations: `kept=<mask>`.
 * `prepfail <eid> created=<k> [allow=<0|1>]` — the (k+1)-th temp file cannot be created (the execution counts for
   the names/leftover oracles as one that drew no names).
 * `tmpdir` — number of files in the temp directory now.
-* `oracle outcome|env|tmpdir|unique …` — the property on what the implementation showed.
+* `oracle outcome|ops|env|dirs|tmpdir|unique …` — the property on what the implementation showed.
 -/
 namespace ShellOp.Drv.C12
 open ShellOp ShellOp.Util ShellOp.HookRun
@@ -25,6 +28,7 @@ structure ExecIn where
   eid : Nat
   allow : Bool
   out : Outputs
+  ops : List POp := []
 
 structure S where
   dir : List Name := []
@@ -61,7 +65,7 @@ def respOf (ok : Text.V → Bool) (cls : String) (text : List Char) : Resp :=
 
 def patchOf (cls fmt : String) (text : List Char) : Patch :=
   let byClass : Patch :=
-    if cls == "valid" then .ops true else if cls == "applyerr" then .ops false else .parseErr
+    if cls == "valid" || cls == "marked" then .ops true else if cls == "applyerr" then .ops false else .parseErr
   -- `pf=json`: the generator's texts that are not JSON are not YAML either (it filters them)
   if fmt == "json" then Text.patchOfText (cls == "deleted") byClass .parseErr text
   else if cls == "deleted" then .unreadable
@@ -77,6 +81,28 @@ def bool? : String → Option Bool
 
 def showOutcome (fail : Bool) (p m a c : Bool) : String :=
   s!"status={if fail then "Fail" else "Success"} patch={b01 p} metrics={b01 m} adm={b01 a} conv={b01 c}"
+
+/-- `pm=`: the operations of the patch file, `<p|c><0|1>:x<hex>` (patch-type or not, ignoreHookError,
+subresource) separated by commas; `-` = none. -/
+def parseOp (t : String) : Option POp :=
+  match t.splitOn ":" with
+  | [ki, sub] =>
+    match ki.toList, unhex sub with
+    | [k, i], some sb =>
+      match (if k == 'p' then some true else if k == 'c' then some false else none), bool? (String.singleton i) with
+      | some isP, some ig => some ⟨isP, String.ofList sb, ig⟩
+      | _, _ => none
+    | _, _ => none
+  | _ => none
+
+def parseOps (t : String) : Option (List POp) :=
+  if t == "-" then some [] else (t.splitOn ",").mapM parseOp
+
+def parseMask (t : String) : Option (List Bool) :=
+  if t == "-" then some [] else (t.splitOn ",").mapM bool?
+
+def showMask (m : List Bool) : String :=
+  if m.isEmpty then "-" else ",".intercalate (m.map b01)
 
 def parseExec (rest : List String) : Option (Bool × Outputs) := do
   let allow ← (kv? "allow" rest).bind bool?
@@ -102,12 +128,37 @@ def step (st : S) (toks : List String) : S × String :=
     | some v => ({ st with keep := keepSetting (String.ofList v) }, "ok")
     | none => (st, "bad-op")
   | "exec" :: eid :: rest =>
-    match eid.toNat?, parseExec rest with
-    | some eid, some (allow, out) =>
+    match eid.toNat?, parseExec rest, (kv? "pm" rest).bind parseOps with
+    | some eid, some (allow, out), some ops =>
       let r := run st.keep (namesFor eid) [] out st.dir
       let h := handle r
-      ({ st with dir := r.dir, execs := st.execs ++ [⟨eid, allow, out⟩] },
-        showOutcome (taskStatusFail allow h) h.patchExecuted h.metricsSent h.admissionProp h.conversionProp)
+      let executed := handleOps r ops
+      ({ st with dir := r.dir, execs := st.execs ++ [⟨eid, allow, out, ops⟩] },
+        showOutcome (taskStatusFail allow h) h.patchExecuted h.metricsSent h.admissionProp h.conversionProp
+          ++ " ops=" ++ showMask (ops.map (fun o => executed.contains o)))
+    | _, _, _ => (st, "bad-op")
+  | ["filter", pm] =>
+    -- `GetPatchStatusOperationsOnHookError` on a parsed list of operations: which are kept
+    match (kv? "pm" [pm]).bind parseOps with
+    | some ops =>
+      let kept := statusOpsOnError ops []
+      (st, "kept=" ++ showMask (ops.map (fun o => kept.contains o)))
+    | none => (st, "bad-op")
+  | "oracle" :: "ops" :: rest =>
+    -- the operations of the patch file: after a non-zero exit / a malformed output none is applied
+    -- (except, at most, status patches marked ignoreHookError: the documented exception); an
+    -- execution that does not fail applies every one
+    match (kv? "eid" rest).bind String.toNat?, (kv? "applied" rest).bind parseMask with
+    | some eid, some applied =>
+      match st.execs.find? (·.eid == eid) with
+      | none => (st, "bad-op")
+      | some e =>
+        if Spec.admitsOps e.out e.ops applied then (st, "true")
+        else if applied.length != e.ops.length then (st, s!"false want {e.ops.length} operations")
+        else if e.out.exit ≠ 0 || Spec.malformed e.out then
+          (st, "false the execution failed: only status patches marked ignoreHookError may be applied, want at most applied="
+            ++ showMask (e.ops.map Spec.statusIgnore))
+        else (st, "false the execution did not fail: want every operation applied")
     | _, _ => (st, "bad-op")
   | "prepfail" :: eid :: c :: rest =>
     -- optional `allow=<0|1>` (default 0): the task's allowFailure
@@ -144,13 +195,23 @@ def step (st : S) (toks : List String) : S × String :=
     | _, _, _, _, _, _ => (st, "bad-op")
   | "oracle" :: "env" :: rest =>
     -- started in its own directory; six variables pointing into the temp dir with the documented
-    -- name patterns; the four output files empty; the context file = exactly the task's contexts
-    let flags := ["pwd", "dir", "pattern", "sizes", "ctx", "alias"]
+    -- name patterns; the four output files empty; the context file = exactly the task's contexts;
+    -- `access`: seen from inside the hook process (its own working directory) every variable names an
+    -- existing regular file it can read and write
+    let flags := ["pwd", "dir", "pattern", "sizes", "ctx", "alias", "access"]
     match (kv? "vars" rest).bind String.toNat?, flags.mapM (fun f => (kv? f rest).bind bool?) with
     | some vars, some fs =>
       if vars == 6 && fs.all id then (st, "true")
       else (st, "false want vars=6 and every flag 1")
     | _, _ => (st, "bad-op")
+  | "oracle" :: "dirs" :: rest =>
+    -- the configured directories (--hooks-dir: must exist; --tmp-dir: exists or is created), however
+    -- they are spelled: accepted, and what the plumbing hands to the hook manager names exactly them
+    match ["hookserr", "tmperr", "hooks", "tmp"].mapM (fun f => (kv? f rest).bind bool?) with
+    | some [he, te, h, t] =>
+      if !he && !te && h && t then (st, "true")
+      else (st, "false want hookserr=0 tmperr=0 hooks=1 tmp=1")
+    | _ => (st, "bad-op")
   | "oracle" :: "tmpdir" :: rest =>
     -- all temporary files of the executions are gone (unless the debug variable keeps them)
     -- `setting=x<hex>`: the value of --debug-keep-tmp-files the operator runs with (default "no");
